@@ -607,13 +607,38 @@ func TestC19Ws(t *testing.T) {
 			})
 			unguard()
 			ok := parked[0] && parked[1] && returned[0] && returned[1] && errs[0] != "nil" && errs[1] != "nil"
+			// the same three steps for the fragment-level model (Model/WsFrag.v; the wire takes 2 fragments, a frame has 6):
+			// Write 0, Write 1, the contexts of both end
+			fobs := func(rets []string, pend []int) string {
+				return fmt.Sprintf("mkFObs %s %s", coqList(rets), coqInts(pend))
+			}
+			var fragSteps []string
+			pend, early := []int{}, [2][]string{}
+			for i := 0; i < 2; i++ {
+				if parked[i] {
+					pend = append(pend, i)
+				} else {
+					early[i] = []string{fmt.Sprintf("(%d, %s)", i, coqBool(errs[i] == "nil"))}
+				}
+				fragSteps = append(fragSteps, fmt.Sprintf("([FWrite %d 5%%nat], %s)", i+1, fobs(early[i], append([]int{}, pend...))))
+			}
+			var rets []string
+			var still []int
+			for _, i := range pend {
+				if returned[i] {
+					rets = append(rets, fmt.Sprintf("(%d, %s)", i, coqBool(errs[i] == "nil")))
+				} else {
+					still = append(still, i)
+				}
+			}
+			fragSteps = append(fragSteps, fmt.Sprintf("([FCancel 0%%nat; FCancel 1%%nat], %s)", fobs(rets, still)))
 			tags := []string{"ws:blocked-write", "ws-variant:" + variant}
 			if leaked {
 				tags = append(tags, "ws-leaked")
 			}
 			em.Emit(Rec{Idx: idx, Kind: "ws-blocked-write", Desc: map[string]any{"variant": variant, "relay_limit": 64 << 10, "envelope_bytes": 300000},
 				Obs: map[string]any{"parked_before": parked, "returned_at_quiescence_after_ctx_done": returned, "errs": errs},
-				Coq: fmt.Sprintf("CAssert 6 %s", coqBool(ok)), Tags: tags})
+				Coq: fmt.Sprintf("CWsFrag 2%%nat %s %s", coqList(fragSteps), coqBool(ok)), Tags: tags})
 			em.Marker("end", idx)
 		}
 		idx++
